@@ -216,6 +216,31 @@ def _u(p):
     return [int(p[0]), int(p[1]), int(p[2]), int(p[3])]
 
 
+def _snap(x):
+    """bytes of every ndarray reachable in an argument (None for anything else)"""
+    if isinstance(x, np.ndarray):
+        return (x.dtype.str, x.shape, x.tobytes())
+    if isinstance(x, (list, tuple)):
+        return tuple(_snap(e) for e in x)
+    return None
+
+
+def _unsnap(sn):
+    if sn is None:
+        return None
+    if len(sn) == 3 and isinstance(sn[2], bytes):
+        return np.frombuffer(sn[2], dtype=sn[0]).reshape(sn[1]).tolist()
+    return [_unsnap(e) for e in sn]
+
+
+def _vals(x):
+    if isinstance(x, np.ndarray):
+        return x.tolist()
+    if isinstance(x, (list, tuple)):
+        return [_vals(e) for e in x]
+    return repr(x)
+
+
 def _fail(ctx, sig, what, inp, impl_out, model_out, clauses):
     """record a spec failure; per signature only the first 100 are stored (all are counted)"""
     n = ctx.extra.setdefault("spec_failures_by_signature", {})
@@ -241,6 +266,7 @@ def judge_onarc(ctx, impl, a, b, p, tag, k=None):
     ctx.hit(f"onarc:query={qc}")
     k = tuple(k) if k else ctx.rng.choice(PYTH)
     for name, A, B, P in (("as-given", a, b, p), ("ends-swapped", b, a, p), ("rotated-about-z", rotz(a, k), rotz(b, k), rotz(p, k))):
+        impl.cur = (ctx, dict(inp, variant=name, rot=list(k)))
         try:
             got = bool(impl.point_within_gca(np.array(fl(P)), np.array([fl(A), fl(B)])))
         except Exception as e:  # noqa: BLE001
@@ -283,6 +309,7 @@ def judge_meet(ctx, impl, a, b, c, d_, tag, k=None):
     for name, A, B, C, D in (("as-given", a, b, c, d_), ("arcs-swapped", c, d_, a, b), ("first-ends-swapped", b, a, c, d_),
                              ("second-ends-swapped", a, b, d_, c), ("rotated-about-z", R(a), R(b), R(c), R(d_))):
         cls = _special(arc_class(A, B), arc_class(C, D)) + ("+pole-snapped-point" if impl.snapped(A, B, C, D) else "")
+        impl.cur = (ctx, dict(inp, variant=name, rot=list(k)))
         try:
             pts = np.asarray(impl.gca_gca_intersection(np.array([fl(A), fl(B)]), np.array([fl(C), fl(D)])))
             pts = pts.reshape(-1, 3) if pts.size else np.zeros((0, 3))
@@ -347,6 +374,7 @@ def judge_extreme(ctx, impl, a, b, tag, tol, k=None):
     k = tuple(k) if k else ctx.rng.choice(PYTH)
     for name, A, B in (("as-given", a, b), ("ends-swapped", b, a), ("rotated-about-z", rotz(a, k), rotz(b, k))):
         for which in ("max", "min"):
+            impl.cur = (ctx, dict(inp, variant=name, rot=list(k), which=which))
             try:
                 got = float(impl.extreme_gca_latitude(np.array([fl(A), fl(B)]), which))
             except Exception as e:  # noqa: BLE001
@@ -378,12 +406,32 @@ class Impl:
         from uxarray.grid.intersections import gca_gca_intersection
         from uxarray.utils import computing
 
-        self.point_within_gca = point_within_gca
-        self.gca_gca_intersection = gca_gca_intersection
-        self.extreme_gca_latitude = extreme_gca_latitude
+        # every call goes through a purity guard: the bytes of every ndarray argument (also inside
+        # lists) are compared before/after the call
+        self.cur = None  # (ctx, input record) of the case being judged
+        self.point_within_gca = self._guard("point_within_gca", point_within_gca)
+        self.gca_gca_intersection = self._guard("gca_gca_intersection", gca_gca_intersection)
+        self.extreme_gca_latitude = self._guard("extreme_gca_latitude", extreme_gca_latitude)
         self.tol = float(ERROR_TOLERANCE)
         self.eps = float(MACHINE_EPSILON)
         self._c = computing
+
+    def _guard(self, name, fn):
+        def call(*args, **kw):
+            before = [_snap(a) for a in args]
+            try:
+                return fn(*args, **kw)
+            finally:
+                for k, a in enumerate(args):
+                    if before[k] is not None and _snap(a) != before[k] and self.cur is not None:
+                        ctx, inp = self.cur
+                        ctx.hit(f"purity:{name}:modified-arg{k}")
+                        _fail(ctx, f"C14/{name}/modifies-input/arg={k}",
+                              f"{name} changes the values of its argument {k} (the caller's array): a later primitive given the same "
+                              f"object answers for different points", inp, dict(after=_vals(a)), dict(before=_unsnap(before[k])),
+                              ["session_state_const"])
+
+        return call
 
     # ---- input classes that depend on the library's own constants (used in signatures only) ----
     def snapped(self, *pts):
@@ -405,6 +453,127 @@ class Impl:
         x = c.cross(n1, n2)
         x = x / c.norm(x)
         return max(abs(float(c.dot(n1, x))), abs(float(c.dot(n2, x))))
+
+
+# ----------------------------------------------------------------------------------------------
+# call sequences on ONE arc object (purity: the primitives behave like functions of the values)
+# ----------------------------------------------------------------------------------------------
+
+FORMS = ["ndarray", "list-of-arrays", "strided-rows-view", "strided-cols-view", "fortran-order", "list-of-row-views"]
+_FILL = [[0.6, 0.8, 0.0], [0.0, 0.0, 1.0], [0.28, -0.96, 0.0]]
+
+
+def make_arc_object(form, fa, fb):
+    """the two end points in one of the argument forms callers use: a (2,3) array, a list of two arrays,
+    non-contiguous views of a bigger node array, a list of row views of a node array"""
+    if form == "ndarray":
+        return np.array([fa, fb])
+    if form == "list-of-arrays":
+        return [np.array(fa), np.array(fb)]
+    if form == "fortran-order":
+        return np.asfortranarray(np.array([fa, fb]))
+    if form == "strided-cols-view":
+        m = np.zeros((2, 6))
+        m[:, 1::2] = 7.25
+        m[:, ::2] = [fa, fb]
+        return m[:, ::2]
+    nodes = np.array([_FILL[0], fa, _FILL[1], _FILL[2], fb])
+    if form == "strided-rows-view":
+        return nodes[1::3]
+    if form == "list-of-row-views":
+        return [nodes[1], nodes[4]]
+    raise ValueError(form)
+
+
+def _apply(impl, op, g):
+    """one call of a session on the arc object g; the other arguments are always fresh"""
+    try:
+        if op["op"] == "extreme":
+            return ("float", float(impl.extreme_gca_latitude(g, op["which"])))
+        if op["op"] == "within":
+            return ("bool", bool(impl.point_within_gca(np.array(fl(tuple(op["p"]))), g)))
+        other = np.array([fl(tuple(op["c"])), fl(tuple(op["d"]))])
+        pts = np.asarray(impl.gca_gca_intersection(g, other) if op["pos"] == 0 else impl.gca_gca_intersection(other, g))
+        return ("points", [[float(v) for v in row] for row in (pts.reshape(-1, 3) if pts.size else [])])
+    except Exception as e:  # noqa: BLE001
+        return ("raises", f"{type(e).__name__}: {e}"[:120])
+
+
+def _same(x, y):
+    if x[0] != y[0]:
+        return False
+    if x[0] == "float":
+        return x[1] == y[1] or (x[1] != x[1] and y[1] != y[1])
+    return x[1] == y[1]
+
+
+_PRIM = dict(extreme="extreme_gca_latitude", within="point_within_gca", meet="gca_gca_intersection")
+
+
+def judge_session(ctx, impl, a, b, form, ops, tag):
+    """2–4 primitives, in the given order, on the SAME arc object; every answer must equal the answer on a
+    fresh object of the same form built from the original values, no call may change the object, and every
+    answer is judged against exact geometry as usual"""
+    d = ctx.driver
+    r = [int(x) for x in d.ask("C14.extreme", *_u(a), *_u(b)).split()]
+    if not r[0]:
+        ctx.hit("session:degenerate-arc-skipped")
+        return
+    fa, fb = fl(a), fl(b)
+    inp = dict(kind="session", a=_u(a), b=_u(b), form=form, ops=ops, tag=tag)
+    ctx.case(("session", a, b, form, repr(ops)), nontrivial=True, sample=inp if len(ops) <= 2 else None)
+    ctx.hit(f"session:form={form}")
+    ctx.hit("session:interior-extreme" if (r[2] or r[5]) else "session:no-interior-extreme")
+    ctx.hit(f"session:calls={len(ops)}")
+    g = make_arc_object(form, fa, fb)
+    original = _snap(g)
+    for i, op in enumerate(ops):
+        impl.cur = (ctx, dict(inp, step=i))
+        ctx.hit(f"session:op={op['op']}")
+        shared = _apply(impl, op, g)
+        fresh = _apply(impl, op, make_arc_object(form, fa, fb))
+        if not _same(shared, fresh):
+            _fail(ctx, f"C14/{_PRIM[op['op']]}/answer-depends-on-call-history",
+                  f"call {i} ({op['op']}) of a sequence on one {form} arc object answers {shared[1]!r}, the same call on a fresh object with "
+                  f"the original values answers {fresh[1]!r}" + ("" if _snap(g) == original else " (the object no longer holds the original values)"),
+                  dict(inp, step=i), shared[1], fresh[1], ["session_answers"])
+    # exact-geometry verdicts of the same questions (fresh arrays, all symmetric variants)
+    if any(op["op"] == "extreme" for op in ops):
+        judge_extreme(ctx, impl, a, b, tag, impl.tol)
+    for op in ops:
+        if op["op"] == "within":
+            judge_onarc(ctx, impl, a, b, tuple(op["p"]), tag)
+        elif op["op"] == "meet":
+            c, d_ = tuple(op["c"]), tuple(op["d"])
+            judge_meet(ctx, impl, *((a, b, c, d_) if op["pos"] == 0 else (c, d_, a, b)), tag)
+
+
+def gen_session(ctx, rng):
+    """an arc (with an interior extreme latitude in most sessions) and 2–4 calls in random order"""
+    want_interior = rng.random() < 0.8
+    for _ in range(8):
+        a, b = gen_arc(rng, rng.choice(ARC_KINDS))
+        if cross(a, b) == (0, 0, 0):
+            continue
+        r = [int(x) for x in ctx.driver.ask("C14.extreme", *_u(a), *_u(b)).split()]
+        if r[0] and (not want_interior or r[2] or r[5]):
+            break
+    else:
+        return None
+    ops = []
+    for _ in range(rng.randint(2, 4)):
+        kind = rng.choice(["extreme", "extreme", "within", "within", "meet"])
+        if kind == "extreme":
+            ops.append(dict(op="extreme", which=rng.choice(["max", "min"])))
+        elif kind == "within":
+            ops.append(dict(op="within", p=_u(gen_query(rng, a, b, rng.choice(["inside", "inside", "beyond", "near-circle"])))))
+        else:
+            c, d_ = gen_crossing(rng, a, b)
+            ops.append(dict(op="meet", c=_u(c), d=_u(d_), pos=rng.randint(0, 1)))
+    if want_interior and not any(o["op"] == "extreme" for o in ops[:-1]):
+        ops.insert(0, dict(op="extreme", which=rng.choice(["max", "min"])))
+        ops = ops[:4]
+    return a, b, rng.choice(FORMS), ops
 
 
 def gen_crossing(rng, a, b):
@@ -433,11 +602,18 @@ def run(ctx):
                 "arc, on the circle beyond an end, 1e-3..1e-5 rad inside/outside an end, off the circle, 1e-3..1e-5 rad off the circle, the "
                 "poles; second arcs built through / short of / just touching a rational point of the first; every case also with ends "
                 "swapped, arcs swapped and rotated about z by a Pythagorean angle; only cases whose exact margin (Lean, ℚ) is ≥ 1e-6 are "
-                "judged; distinct = distinct exact input; non-trivial = special arc class, on-circle query, crossing, or apex inside")
+                "judged; distinct = distinct exact input; non-trivial = special arc class, on-circle query, crossing, or apex inside; "
+                "purity: the bytes of every ndarray argument of EVERY call are compared before/after; call sequences: 2-4 primitives "
+                "(extreme max/min, point_within_gca with points along the arc, gca_gca_intersection with a constructed second arc, as "
+                "first or second argument) in random order on ONE arc object (80% with an interior extreme latitude) given as (2,3) "
+                "array, list of arrays, Fortran order, row-/column-strided view of a bigger array, list of row views; every answer must "
+                "equal the answer on a fresh object of the same form holding the original values")
     ctx.assumptions = [
         "the implementation receives the correctly rounded doubles of the exact rational unit vectors; IEEE evaluation inside it is not modelled",
         "latitude values are compared with ERROR_TOLERANCE (1e-8 rad) or 4 ulp of sin(latitude), whichever is weaker",
         "the parallel (same great circle) branch of gca_gca_intersection is outside the property and not exercised",
+        "the Lean primitives are functions (session_state_const, session_answers); that the implementation behaves like a function of the "
+        "values is tied by the byte comparison of every argument and by the shared-object call sequences; float32 arguments are only noted",
     ]
     # minimised past failures first (the stored input only, no generator, no seed)
     for f in sorted((common.CORPUS / "C14").glob("*.json")):
@@ -466,6 +642,17 @@ def run(ctx):
     for _ in range(ctx.n(6000, 200000)):
         a, b = gen_arc(rng, rng.choice(kinds))
         judge_extreme(ctx, impl, a, b, "generated", impl.tol)
+    for _ in range(ctx.n(2500, 60000)):
+        sess = gen_session(ctx, rng)
+        if sess is not None:
+            judge_session(ctx, impl, *sess, "generated")
+    # argument forms outside the judged domain: recorded, not judged
+    try:
+        impl.cur = None
+        impl.extreme_gca_latitude(np.array([[0.6, 0.0, 0.8], [0.0, 0.6, 0.8]], dtype=np.float32), "max")
+        ctx.extra["float32_arguments"] = "accepted (not judged)"
+    except Exception as e:  # noqa: BLE001
+        ctx.extra["float32_arguments"] = f"rejected with {type(e).__name__} (not judged)"
 
 
 def _judge_input(ctx, impl, inp, tag):
@@ -474,6 +661,8 @@ def _judge_input(ctx, impl, inp, tag):
         judge_onarc(ctx, impl, t("a"), t("b"), t("p"), tag, inp.get("rot"))
     elif inp["kind"] == "meet":
         judge_meet(ctx, impl, t("a"), t("b"), t("c"), t("d"), tag, inp.get("rot"))
+    elif inp["kind"] == "session":
+        judge_session(ctx, impl, t("a"), t("b"), inp["form"], inp["ops"], tag)
     else:
         judge_extreme(ctx, impl, t("a"), t("b"), tag, impl.tol, inp.get("rot"))
 
